@@ -42,7 +42,7 @@ def kind_of(prog, fn, modname):
     return None  # `inner` of nested/closure kinds
 
 
-def check_result(ctx, prog, res, spec, sampled=False, pid="C02"):
+def check_result(ctx, prog, res, spec, sampled=False, pid="C02", d21=True):
     """the faithfulness oracle; with sampled=True absence of a trace is fine (C18) but presence must be faithful"""
     R = res.R
     if res.driver_error is not None:
@@ -81,7 +81,7 @@ def check_result(ctx, prog, res, spec, sampled=False, pid="C02"):
         if c["killed_at_yield"]:
             # generator/coroutine ended by an exception delivered at its suspension point
             if not mine:
-                if not sampled:
+                if not sampled and d21:
                     ctx.fail(f"{pid}/generator-ended-by-exception-at-yield:no-trace", spec,
                              f"{where}: ended by {c.get('exc')} thrown/closed at its yield point and was never logged\n{res.src}")
                 continue
@@ -142,7 +142,8 @@ def check_result(ctx, prog, res, spec, sampled=False, pid="C02"):
         # listed finding: exactly the frames of generators/coroutines ended by an exception at their suspension point
         if (killed_codes and len(bad_frames) <= len(killed_codes) and all(fr.f_code in killed_codes for fr in bad_frames)
                 and len(traces) <= len(res.left) + len(killed_codes)):
-            ctx.fail(f"{pid}/generator-ended-by-exception-at-yield:residue", spec,
+            if d21:
+              ctx.fail(f"{pid}/generator-ended-by-exception-at-yield:residue", spec,
                      f"tracer still holds {len(bad_frames)} frame(s) of generators ended at their yield point\n{res.src}")
         else:
             return ctx.fail(f"{pid}/per-call-state-left-behind", spec,
